@@ -4,6 +4,12 @@
 import json, subprocess
 
 BUILT = {
+ "C12": ("exploration", "encode/decode, double round trip and write/cold-read round trip of nodes built with the engine's own primitives, logical dumps compared",
+         "Held on the nodes explored: every leaf cell count, every tombstone mask <= 6 cells, all flag combinations, boundary and sampled (quick) / all (thorough) value lengths, internal nodes 0..290 cells, split halves, thousands of random nodes.",
+         "only shapes producible with ascending keys are judged; free-gap bytes not compared"),
+ "C15": ("exploration", "step-by-step comparison of the real LRUCache (holding real nodes) with a reference LRU model: return values and resident state after every step",
+         "Exhaustive over all operation sequences of the stated depth for 2-4 keys and capacities 1-3; random long sequences at capacities 4-64.",
+         "dirty/clean transitions happen through the node pointer without recency change, as in the B+ tree code"),
  "C08": ("exploration", "exact read-back of stored values at four stages (hot, flushed + reloaded through a 16-page cache, new process, crash + recovery) against the model; acceptance predicted by the model",
          "Held on the values explored: all 84 schemas of <= 3 columns + sampled wider ones, all type boundaries, every single byte, rows at 399/400/401/437 bytes for INSERT and UPDATE, wrong SQL and Go types; text and direct submission.",
          "SQL text cannot express negative ints, NULL, quotes/backslashes/newlines in strings: direct values only for those"),
